@@ -23,6 +23,13 @@ def schemes(tier, with_registry=True):
     for M in (2, 4, 8, 16):
         for g in (True, False):
             out.append(("dpsk", f"M={M},gray={int(g)}", {"order": M, "gray_coding": g}))
+    # the constructor's alias keywords are labelling options too
+    for M in (4, 8):
+        for g in (True, False):
+            out.append(("dpsk", f"M={M},gray_coded={int(g)}", {"order": M, "gray_coded": g}))
+    for bps in (1, 2, 3):
+        for g in (True, False):
+            out.append(("dpsk", f"bps={bps},gray_coded={int(g)}", {"bits_per_symbol": bps, "gray_coded": g}))
     out.append(("dbpsk", "-", {}))
     out.append(("dqpsk", "-", {}))
     for nz in (True, False):
@@ -31,7 +38,7 @@ def schemes(tier, with_registry=True):
         out.append(("pi4qpsk", f"gray={int(g)}", {"gray_coded": g}))
     out.append(("identity", "-", {}))
     if with_registry:
-        out += [(s, c + ",via=registry", dict(p, via="registry")) for s, c, p in list(out) if s in ("bpsk", "qpsk", "oqpsk", "pi4qpsk", "dbpsk", "dqpsk", "identity") or (s in ("psk", "qam", "pam", "dpsk") and p.get("order") in (4, 8, 16))]
+        out += [(s, c + ",via=registry", dict(p, via="registry")) for s, c, p in list(out) if s in ("bpsk", "qpsk", "oqpsk", "pi4qpsk", "dbpsk", "dqpsk", "identity") or (s in ("psk", "qam", "pam", "dpsk") and p.get("order") in (4, 8, 16) and "gray_coded" not in p)]
     return out
 
 
@@ -121,4 +128,6 @@ def bits_per_symbol(scheme, prm):
         return 1
     if scheme in ("qpsk", "oqpsk", "pi4qpsk", "dqpsk"):
         return 2
+    if "bits_per_symbol" in prm:
+        return prm["bits_per_symbol"]
     return int(round(math.log2(prm["order"])))
